@@ -12,7 +12,7 @@ def run(tier, rep):
         picks = picks[:4]
     depth = 3 if tier == "quick" else 4
     tasks = [dict(src=srcs[n], mode=m, prune=p, depth=depth, eps=[0] if tier == "quick" else [0, 1], seed=sd) for n, m, p in picks if n in srcs]
-    with Pool() as pool:
+    with Pool(maxtasks=4) as pool:
         results = list(pool.imap("vf.c09_task", "c09_task", tasks))
     _collect(rep, results, "api_histories")
     rep.section("bfs", graphs=[f"{n}:{m}:{'prune' if p else 'noprune'}" for n, m, p in picks], depth_completed=depth,
